@@ -173,6 +173,26 @@ class Extractor:
                 return f'config:{e.attr}'
             if base.startswith('file:'):
                 return base + '.' + e.attr
+        if isinstance(e, ast.IfExp):
+            tv = self.test(e.test, env)
+            if tv is True:
+                return self.prov(e.body, env)
+            if tv is False:
+                return self.prov(e.orelse, env)
+        if isinstance(e, ast.BinOp) and isinstance(e.op, ast.Sub) and isinstance(e.right, ast.Constant) \
+                and isinstance(e.right.value, int) and not isinstance(e.right.value, bool):
+            left = self.prov(e.left, env)
+            if not left.startswith('expr:'):
+                return f'{left}-{e.right.value}'
+        if isinstance(e, ast.Call) and isinstance(e.func, ast.Attribute) and e.func.attr == 'get' and not e.keywords \
+                and self.prov(e.func.value, env) == 'FILE' and len(e.args) == 1 and isinstance(e.args[0], ast.Constant) \
+                and isinstance(e.args[0].value, str):
+            return f'fileget:{e.args[0].value}'        # None when the key is absent (older files)
+        if isinstance(e, ast.Call) and isinstance(e.func, ast.Name) and e.func.id in ('len', 'range') and len(e.args) == 1 \
+                and not e.keywords:
+            inner = self.prov(e.args[0], env)
+            if not inner.startswith('expr:'):
+                return f'{e.func.id}({inner})'
         if isinstance(e, ast.Call):
             fb = self.prov(e.func, env)
             if fb == 'file:optimizer_class' and len(e.args) == 1 and not e.keywords \
